@@ -265,7 +265,8 @@ pub fn check_session(c: &SessionCase, st: &mut Stats) -> Result<(), String> {
     if let Some(k) = c.read_error_at {
         let mut s = h.borrow_mut();
         s.read_script = vec![ReadStep::Serve(1); k];
-        s.read_script.push(ReadStep::Error(io::ErrorKind::Other));
+        // (the kind varies with the index: a timeout is an error like any other, the bus stays usable after all of them)
+        s.read_script.push(ReadStep::Error([io::ErrorKind::Other, io::ErrorKind::TimedOut, io::ErrorKind::WouldBlock, io::ErrorKind::UnexpectedEof, io::ErrorKind::BrokenPipe][k % 5]));
     }
     let mut bus = SerialSignBus::try_new(port).map_err(|e| format!("SerialSignBus::try_new failed on a cooperative port: {e}"))?;
     let mut want_written: Vec<u8> = vec![];
